@@ -44,7 +44,8 @@ def prop(case, rec):
     pc = trainer.write_list(path, case['entries'], 'utf-8', case.get('spelling', 'plain'))
     rec.cls('list_spelling_' + case.get('spelling', 'plain'))
     out = os.path.join(_dir(), 'R')
-    r = guard(case, trainer.train, path, out, encoding='utf-8', coverage=0.5, ngram=case['ngram'], alphabet_size=case['alphabet_size'], prefixcount=pc)
+    r = guard(case, trainer.train, path, out, encoding='utf-8', coverage=case.get('coverage', 0.5), ngram=case['ngram'], alphabet_size=case['alphabet_size'], prefixcount=pc)
+    rec.cls('coverage_%s' % case.get('coverage', 0.5))
     if not r.ok:
         if r.error is not None and not isinstance(r.error, ZeroDivisionError):
             raise Violation('crash:' + type(r.error).__name__, f'run_trainer raised {r.error!r}', case)
@@ -184,7 +185,8 @@ def cases(draw):
                 entries.append([ch * ln_, c_])
         if draw(st.booleans()):
             entries.append([ch * 20 + letters[1], 1])
-    return {'entries': entries, 'ngram': ngram, 'alphabet_size': draw(st.sampled_from([100, 100, 3, 2])), 'spelling': draw(st.sampled_from(trainer.SPELLINGS))}
+    return {'entries': entries, 'ngram': ngram, 'alphabet_size': draw(st.sampled_from([100, 100, 3, 2])), 'spelling': draw(st.sampled_from(trainer.SPELLINGS)),
+            'coverage': draw(st.sampled_from([0.5, 0.5, 0.6, 1, 1.0, 0.0, 0.99]))}
 
 
 def run_main(rec, seed, shard, nshards, tier):
